@@ -569,30 +569,34 @@ def diff_tie(ctx, name, exe, args, runner, cases, oracle=None, nontrivial=None, 
     return nmis
 
 
-def oracle_tie(ctx, name, exe, args, cases, oracle, nontrivial=None, bucket=None, timeout=900, describe=None, env=None):
+def oracle_tie(ctx, name, exe, args, cases, oracle, nontrivial=None, bucket=None, timeout=900, describe=None, env=None, max_viol=3):
     """Run cases on the implementation only and evaluate the property oracle (exploration / failing-input search;
-    never stands in for a theorem). Handles drivers that exit after a HANG line."""
-    impl = []
-    guard = 0
-    rc = 0
-    while len(impl) < len(cases) and guard < 300:
-        guard += 1
-        rc, more, err = ctx.run_driver(exe, args, cases[len(impl):], timeout=timeout, env=env)
-        impl += more
-        if len(impl) < len(cases) and (not more or not more[-1].endswith("HANG")):
-            impl.append("CRASH rc=%s %s" % (rc, err[-200:].replace("\n", " ")))
+    never stands in for a theorem). Handles drivers that exit after a HANG line; stops after max_viol violations."""
     bad = 0
-    for i, c in enumerate(cases):
-        toks = impl[i].split()
-        ctx.count((name, c), nontrivial(c, toks) if nontrivial else True, bucket(c) if bucket else None)
-        if i < 2:
-            ctx.sample({"oracle-run": name, "case": describe(c) if describe else c, "impl": impl[i][:300]})
-        viol = oracle(c, toks)
-        if viol:
-            bad += 1
-            if bad <= 3:
+    done = 0
+    guard = 0
+    t_end = time.time() + timeout
+    while done < len(cases) and guard < 300 and bad < max_viol and time.time() < t_end:
+        guard += 1
+        rc, more, err = ctx.run_driver(exe, args, cases[done:], timeout=max(30, t_end - time.time()), env=env)
+        if not more or (len(more) < len(cases) - done and not more[-1].endswith("HANG")):
+            more.append("CRASH rc=%s %s" % (rc, err[-200:].replace("\n", " ")))
+        for ln in more:
+            if done >= len(cases):
+                break
+            c = cases[done]
+            done += 1
+            toks = ln.split()
+            ctx.count((name, c), nontrivial(c, toks) if nontrivial else True, bucket(c) if bucket else None)
+            if done <= 2:
+                ctx.sample({"oracle-run": name, "case": describe(c) if describe else c, "impl": ln[:300]})
+            viol = oracle(c, toks)
+            if viol:
+                bad += 1
                 ctx.add(Finding("violation", viol[0], "%s: %s" % (name, viol[1]),
-                                {"tie": name, "case": c, "case_text": describe(c) if describe else None, "impl": impl[i][:2000],
+                                {"tie": name, "case": c, "case_text": describe(c) if describe else None, "impl": ln[:2000],
                                  "driver": os.path.basename(exe), "args": [str(a) for a in args]}))
-    ctx.ties.append({"name": name + " (oracle only)", "cases": len(cases), "disagreements": bad})
+                if bad >= max_viol:
+                    break
+    ctx.ties.append({"name": name + " (oracle only)", "cases": done, "disagreements": bad})
     return bad
